@@ -106,7 +106,8 @@ def mutants(props: list[str] | None, verif_seed: int, with_tests: bool = False) 
                        VERIF_EVIDENCE_DIR=os.path.join(d, ".verif-evidence"),
                        VERIF_REPLAY_DIR=os.path.join(d, ".verif-replays"))
             t0 = time.time()
-            p = subprocess.run([os.path.join(VERIF, "check"), m["property"], "--tier", "quick"],
+            tier_args = ["--tier", "thorough", "--wall", "600"] if m.get("tier") == "thorough" else ["--tier", "quick"]
+            p = subprocess.run([os.path.join(VERIF, "check"), m["property"]] + tier_args,
                                capture_output=True, text=True, env=env, cwd=VERIF, timeout=1800)
             viol = [ln for ln in p.stdout.splitlines() if ln.startswith("VIOLATION")]
             clause = next((ln.strip() for ln in p.stdout.splitlines() if ln.strip().startswith("clause:")), "")
